@@ -16,11 +16,11 @@ RULE = ("call specs = (function, parameter variant, dtype, backend) over 42 publ
         "process (every spec repeated at a later position), then (a) a sample of its calls is replayed each in a fresh interpreter, "
         "(b) the whole sequence is replayed in reversed order in another process under a different NUMBA_NUM_THREADS / Dask worker "
         "count; results are compared by sha256 of bytes+dtype+shape; module tables and __defaults__ of the public functions are "
-        "snapshotted after every call; non-trivial = distinct (spec, predecessor spec) pairs compared with a fresh process")
+        "snapshotted after every call; plus ordered pairs (A, B) of specs of one function that differ in parameters/dtype/raster size: B after A in a new process must equal B alone; non-trivial = distinct (spec, predecessor spec) pairs compared with a fresh process")
 BUDGET = {'quick': 170, 'thorough': 1500}
 MODES = {'quick': [('J', 8), ('I', 8)], 'thorough': [('J', 8), ('I', 8)]}
 FLOORS = {'quick': {'repeat_identical': 150, 'fresh_process_identical': 60, 'reordered_other_threads_identical': 220, 'functions_in_sequences': 1,
-                    'state_tables_unchanged': 250, 'compiled_mode_sequences': 5},
+                    'state_tables_unchanged': 250, 'compiled_mode_sequences': 5, 'pair_second_call_equals_fresh': 40},
           'thorough': {'repeat_identical': 2500, 'fresh_process_identical': 1200}}
 ASSUMPTIONS = ['bump() is excluded: it draws from the unseeded global RNG by design',
                'compiled-mode workers are the ones that can see stale JIT specialisations (Numba freezes closure/global values at compile time); '
@@ -232,7 +232,12 @@ def state_snapshot():
 
 def plan(tier, seed):
     n = 16 if tier == 'quick' else 200
-    return [('seq', i) for i in range(n)]
+    out = [('seq', i) for i in range(n)]
+    # ordered pairs (A, B) of specs of ONE function that differ in parameters / dtype / raster size: B after A in a new
+    # process must equal B alone in a new process (stale per-function caches and frozen closures show exactly here)
+    m = 16 if tier == 'quick' else 200
+    out += [('pairs', i) for i in range(m)]
+    return out
 
 
 def shard_filter(descs, shard, nshards, mode):
@@ -251,7 +256,38 @@ def _sub(specs, seed, threads, numba_threads, timeout=900):
     raise RuntimeError('replay subprocess failed rc=%s: %s' % (r.returncode, (r.stderr or r.stdout)[-500:]))
 
 
+def check_pairs(rec, idx, rng, tier):
+    specs_all = all_specs()
+    J = rec.mode == 'J'
+    npairs = (1 if tier == 'quick' else 8) if J else (8 if tier == 'quick' else 16)
+    multi = sorted(nm for nm, v in cat().items() if v[1] >= 2 and not nm.startswith('big.') and not (J and nm == 'viewshed'))
+    closure_family = ['proximity', 'allocation', 'direction']
+    for q in range(npairs):
+        nm = str(rng.choice(closure_family)) if rng.random() < 0.5 else str(rng.choice(multi))
+        cands = [s for s in specs_all if s.startswith(nm + '|') and s.endswith('|0')]      # numpy backend: cheaper, same wrappers
+        byvar = {}
+        for s in cands:
+            byvar.setdefault(s.split('|')[1], []).append(s)
+        va, vb = [str(v) for v in rng.choice(sorted(byvar), size=2, replace=False)]
+        A = str(rng.choice(byvar[va])); B = str(rng.choice(byvar[vb]))
+        nthr = int(rng.choice([1, 4]))
+        rec.evaluation(2)
+        try:
+            dab = _sub([A, B], rec.seed, nthr, nthr); db = _sub([B], rec.seed, nthr, nthr)
+        except Exception as e:
+            rec.harness_errors.append({'kind': 'pairs', 'idx': idx, 'tb': 'pair replay failed: %r' % e}); continue
+        if dab[1] != db[0] and not (dab[1].startswith('EXC') and db[0].startswith('EXC')):
+            rec.violation('history.call_after_other_parameters_differs', 'call %s gives a different result when it follows %s in the same process than alone in a fresh interpreter'
+                          % (B, A), dict(first=A, second=B, after_first=dab[1], alone=db[0], mode=rec.mode))
+            continue
+        rec.ok('pair_second_call_equals_fresh'); rec.add('pair_functions', nm); rec.nontriv('pair', A, B)
+        if len(rec.samples) < 1:
+            rec.sample(dict(pair=[A, B], note='B after A in one new process vs B alone in another; spec = function|variant|dtype|dask'))
+
+
 def check(rec, kind, idx, rng, tier):
+    if kind == 'pairs':
+        return check_pairs(rec, idx, rng, tier)
     specs_all = all_specs()
     J = rec.mode == 'J'
     L = (int(rng.integers(6, 9)) if tier == 'quick' else int(rng.integers(10, 16))) if J else int(rng.integers(20, 31))
